@@ -104,10 +104,20 @@ impl<F: Float> ParamGuard for FastIcaParams<F> {
 
     fn check_ref(&self) -> Result<&Self::Checked, Self::Error> {
         if self.0.tol < F::zero() {
-            Err(FastIcaError::InvalidTolerance(self.0.tol.to_f32().unwrap()))
-        } else {
-            Ok(&self.0)
+            return Err(FastIcaError::InvalidTolerance(self.0.tol.to_f32().unwrap()));
         }
+        // The `alpha` of `GFunc::Logcosh` is validated here, before any training, and not only
+        // when the G function is first evaluated inside the optimization loop (which a
+        // `max_iter` of zero never reaches)
+        if let GFunc::Logcosh(alpha) = self.0.gfunc {
+            if !(1.0..=2.0).contains(&alpha) {
+                return Err(FastIcaError::InvalidValue(format!(
+                    "alpha must be between 1 and 2 inclusive, got {}",
+                    alpha
+                )));
+            }
+        }
+        Ok(&self.0)
     }
 
     fn check(self) -> Result<Self::Checked, Self::Error> {
